@@ -1514,6 +1514,10 @@ class Buffer:
             return self.cursor_position
         else:
             working_index, cursor_position = search_result
+            if working_index != self.working_index:
+                # The match lies in another history entry: its offset means
+                # nothing in this text.
+                return self.cursor_position
             return cursor_position
 
     def apply_search(
